@@ -76,6 +76,11 @@ def nested_models():
                                'root': ('cls', 'K')}
     yield 'underscore-param', {'classes': BASE + [{'name': 'K', 'params': [('_x', ('cls', 'In')), ('_l', ('list', 'int'), None)],
                                                    'extra': True}], 'root': ('cls', 'K')}
+    # a parameter annotated with the literal None (PEP 484 spelling of NoneType)
+    yield 'none-literal', {'classes': BASE + [{'name': 'K', 'params': [('n', 'none'), ('x', 'int', 0)], 'none_literal': True}],
+                           'root': ('cls', 'K')}
+    yield 'none-literal', {'classes': BASE + [{'name': 'K', 'params': [('x', 'int'), ('n', 'none', None)], 'none_literal': True}],
+                           'root': ('list', ('cls', 'K'))}
     yield 'extra-middle', {'classes': BASE + [{'name': 'K', 'params': [('x', 'int'), ('y', 'int', 0)], 'extra': True, 'extra_pos': 1}],
                            'root': ('cls', 'K')}
     yield 'dashed', {'classes': BASE + [{'name': 'K', 'params': [('a_b', 'int'), ('c_d_e', 'str', 'x')], 'extra': True}],
